@@ -1,4 +1,6 @@
-use crate::internal::{consts, MiniAllocator, ObjType, SectorInit};
+use crate::internal::{
+    consts, MiniAllocator, ObjType, SectorInit, Version,
+};
 use std::io::{self, BufRead, Read, Seek, SeekFrom, Write};
 use std::sync::{Arc, RwLock, Weak};
 
@@ -225,6 +227,14 @@ impl<F: Read + Seek> Seek for Stream<F> {
 
 impl<F: Read + Write + Seek> Write for Stream<F> {
     fn write(&mut self, buf: &[u8]) -> io::Result<usize> {
+        if self.current_position().checked_add(buf.len() as u64).is_none() {
+            invalid_input!(
+                "Cannot write {} bytes at position {}: the stream would \
+                 become too long",
+                buf.len(),
+                self.current_position()
+            );
+        }
         let num_bytes_written = match self.buffer.write_bytes(buf) {
             Some(count) => count,
             None => {
@@ -332,8 +342,19 @@ fn write_data_to_stream<F: Read + Write + Seek>(
         (dir_entry.start_sector, dir_entry.stream_len)
     };
     debug_assert!(buf_offset_from_start <= old_stream_len);
-    let new_stream_len =
-        old_stream_len.max(buf_offset_from_start + buf.len() as u64);
+    let max_stream_len = max_stream_len(minialloc.version());
+    let new_stream_len = match buf_offset_from_start
+        .checked_add(buf.len() as u64)
+    {
+        Some(end) if end <= max_stream_len => old_stream_len.max(end),
+        _ => invalid_input!(
+            "Cannot write {} bytes at offset {}: a stream can hold at most \
+             {} bytes",
+            buf.len(),
+            buf_offset_from_start,
+            max_stream_len
+        ),
+    };
     let new_start_sector = if old_start_sector == consts::END_OF_CHAIN {
         // Case 1: The stream has no existing chain.  The stream is empty, and
         // we are writing at the start.
@@ -405,6 +426,12 @@ fn write_data_to_stream<F: Read + Write + Seek>(
     })
 }
 
+/// The largest length a stream can have: all the regular sectors that a file
+/// of this version can contain.
+fn max_stream_len(version: Version) -> u64 {
+    (consts::MAX_REGULAR_SECTOR as u64 + 1) * version.sector_len() as u64
+}
+
 /// Overwrites the bytes in `start..end` of a chain with zeros (does nothing
 /// if the range is empty).
 fn zero_fill<C: Write + Seek>(
@@ -432,6 +459,15 @@ fn resize_stream<F: Read + Write + Seek>(
         debug_assert_eq!(dir_entry.obj_type, ObjType::Stream);
         (dir_entry.start_sector, dir_entry.stream_len)
     };
+    let max_stream_len = max_stream_len(minialloc.version());
+    if new_stream_len > max_stream_len {
+        invalid_input!(
+            "Cannot resize stream to {} bytes: a stream can hold at most {} \
+             bytes",
+            new_stream_len,
+            max_stream_len
+        );
+    }
     let new_start_sector = if old_start_sector == consts::END_OF_CHAIN {
         // Case 1: The stream has no existing chain.  We will allocate a new
         // chain that is all zeroes.
